@@ -220,54 +220,7 @@ func runC13(c *Check, a *Analysis) {
 			c.Ob("R-ATOMIC-POOL", sc.key(gc, "dial under connsMu"), p.InstrPos(d), held, ifs(!held, "getConn dials with the pool lock released: several callers dial for the same slot"))
 		}
 	}
-	c.Rule("R-FRESH-LOOKUP", "a fresh container is stored into a pool map only under a lookup miss of that map that is re-evaluated before every such store (no path from one insertion to the next avoids the lookup)", 2)
-	for _, tbl := range []string{"conns", "idleConns"} {
-		for _, op := range p.mapOps("Transport", tbl) {
-			if op.Kind != "update" {
-				continue
-			}
-			fresh := false
-			for _, o := range p.origins(op.Val) {
-				o = p.canon(o)
-				if _, isAlloc := o.(*ssa.Alloc); isAlloc {
-					fresh = true
-				}
-				if cc, isC := o.(*ssa.Call); isC && calleeName(cc) == "newConnQueue" {
-					fresh = true
-				}
-			}
-			if !fresh {
-				continue
-			}
-			fn := op.Fn
-			var lk ssa.Instruction
-			eachInstr(fn, func(in ssa.Instruction) {
-				l, ok := in.(*ssa.Lookup)
-				if !ok || !l.CommaOk || !isLoadOf(p.canon(l.X), "Transport", tbl) {
-					return
-				}
-				g, _ := p.guardedBy(op.Instr, func(cond ssa.Value) (bool, bool) {
-					e, ok := p.canon(cond).(*ssa.Extract)
-					if !ok || e.Index != 1 || e.Tuple != ssa.Value(l) {
-						return false, false
-					}
-					return true, false
-				})
-				if g {
-					lk = in
-				}
-			})
-			ok := lk != nil
-			det := ""
-			if lk == nil {
-				det = "a fresh container is stored into Transport." + tbl + " without a lookup miss guarding it: an existing container (and its connections) is overwritten and leaked"
-			} else if _, tr, again := p.reachFrom(fn, op.Instr, func(x ssa.Instruction) bool { return x == op.Instr }, func(x ssa.Instruction) bool { return x == lk }); again {
-				ok = false
-				det = "the lookup that justifies this insertion is not re-evaluated between two insertions (path " + p.lineTrail(tr) + "): the second one overwrites the container just stored and its connections are leaked open"
-			}
-			c.Ob("R-FRESH-LOOKUP", sc.key(fn, "Transport."+tbl+"[addr]=fresh container"), p.InstrPos(op.Instr), ok, det)
-		}
-	}
+	ruleFreshLookup(c, a, "R-FRESH-LOOKUP")
 
 	// ---- R-IDLE-CAP
 	c.Rule("R-IDLE-CAP", "connQueue.Enqueue refuses at length == capacity; every queue is created with capacity t.MaxIdleConnsPerHost; a connection rejected by Enqueue is closed (Enqueue on a queue created in the same function is exempt)", 4)
@@ -306,62 +259,10 @@ func runC13(c *Check, a *Analysis) {
 			ok := isLoadOf(p.canon(nq.Common().Args[0]), "Transport", "MaxIdleConnsPerHost")
 			c.Ob("R-IDLE-CAP", sc.key(fn, "newConnQueue(t.MaxIdleConnsPerHost)"), p.InstrPos(nq), ok, ifs(!ok, "idle queue created with capacity "+describe(nq.Common().Args[0])+" instead of t.MaxIdleConnsPerHost"))
 		}
-		for _, eq := range callsIn(fn, "(*connQueue).Enqueue") {
-			in := eq.(ssa.Instruction)
-			recvFresh := false
-			for _, o := range p.origins(eq.Common().Args[0]) {
-				if cc, ok := p.canon(o).(*ssa.Call); ok && calleeName(cc) == "newConnQueue" && cc.Parent() == fn {
-					recvFresh = true
-				} else {
-					recvFresh = false
-					break
-				}
-			}
-			if recvFresh {
-				c.Ob("R-IDLE-CAP", sc.key(fn, "Enqueue on fresh queue"), p.InstrPos(in), true, "")
-				continue
-			}
-			// rejected connection is closed: on the edge where the result is false a Close of the argument follows
-			res := eq.Value()
-			okClose := false
-			edges, n := p.guardEdges(fn, func(cond ssa.Value) (bool, bool) {
-				if p.canon(cond) == ssa.Value(res) {
-					return true, false // rejected on the false edge
-				}
-				return false, false
-			})
-			if n > 0 {
-				okClose = true
-				for e := range edges {
-					_, _, miss := p.reachFromBlock(fn, e.to, func(x ssa.Instruction) bool { return isReturnLike(x) || x == in }, func(x ssa.Instruction) bool {
-						cc, ok := x.(*ssa.Call)
-						return ok && calleeName(cc) == "(*Conn).Close"
-					}, nil)
-					if miss {
-						okClose = false
-					}
-				}
-			}
-			c.Ob("R-IDLE-CAP", sc.key(fn, "rejected by Enqueue ⇒ Close"), p.InstrPos(in), okClose, ifs(!okClose, "a connection that does not fit into the idle queue is neither queued nor closed (leaked, uncounted)"))
-		}
 	}
+	ruleEnqueueOrClose(c, a, "R-IDLE-CAP")
 
-	// ---- R-MOVE-PAIR
-	c.Rule("R-MOVE-PAIR", "every removal from an active list (conns.Delete) is followed on all paths by Enqueue or Close of the removed connection", 2)
-	for _, fn := range p.Fns {
-		for _, del := range callsIn(fn, "(*conns).Delete") {
-			in := del.(ssa.Instruction)
-			_, tr, miss := p.reachFrom(fn, in, func(x ssa.Instruction) bool { return isReturnLike(x) || x == in }, func(x ssa.Instruction) bool {
-				cc, ok := x.(*ssa.Call)
-				if !ok {
-					return false
-				}
-				n := calleeName(cc)
-				return n == "(*Conn).Close" || n == "(*connQueue).Enqueue"
-			})
-			c.Ob("R-MOVE-PAIR", sc.key(fn, "Delete then Enqueue|Close"), p.InstrPos(in), !miss, ifs(miss, "a connection removed from the active list is neither parked nor closed on path "+p.lineTrail(tr)))
-		}
-	}
+	ruleMovePair(c, a, "R-MOVE-PAIR")
 
 	// ---- R-NORMALISE
 	c.Rule("R-NORMALISE", "Transport.MaxConnsPerHost / MaxIdleConnsPerHost are written only inside the sync.Once initialiser, under `< 1 → default` and `idle > conns → clamp to conns`", 3)
@@ -372,7 +273,7 @@ func runC13(c *Check, a *Analysis) {
 			if baseIsLocalAlloc(s.Base) {
 				continue
 			}
-			inOnce := false
+			inOnce := len(boundOnceSites(p, s.Fn)) > 0
 			if par := s.Fn.Parent(); par != nil {
 				eachInstr(par, func(in ssa.Instruction) {
 					if cc, ok := in.(*ssa.Call); ok && calleeName(cc) == "(*sync.Once).Do" {
@@ -801,6 +702,10 @@ func runC15(c *Check, a *Analysis) {
 		c.Ob("R-CLOSE-ALL", sc.key(run, "exit on <-t.done"), run.Pos(), ok, ifs(!ok, "the housekeeping loop has no exit arm on t.done"))
 	}
 
+	// a connection that drops out of both pool structures without being closed is never reclaimed
+	ruleFreshLookup(c, a, "R-FRESH-LOOKUP")
+	ruleMovePair(c, a, "R-MOVE-PAIR")
+	ruleEnqueueOrClose(c, a, "R-IDLE-CAP")
 	c.Rule("R-NUMCALLS", "Conn.NumCalls reads len(pending) and len(streams) under Conn.mutex and its result has both among its origins", 2)
 	if nc := p.Fn("(*Conn).NumCalls"); nc == nil {
 		c.Undecided("R-NUMCALLS", "(*Conn).NumCalls not found")
@@ -825,6 +730,134 @@ func runC15(c *Check, a *Analysis) {
 		})
 		for _, t := range []string{"pending", "streams"} {
 			c.Ob("R-NUMCALLS", "(*Conn).NumCalls#counts "+t, nc.Pos(), have[t], ifs(!have[t], "NumCalls ignores Conn."+t+": housekeeping can close a connection with outstanding "+t))
+		}
+	}
+}
+
+// ruleFreshLookup is shared by C13, C15 and C20.
+func ruleFreshLookup(c *Check, a *Analysis, rule string) {
+	p := c.P
+	sc := siteCounter{}
+	c.Rule(rule, "a fresh container is stored into a pool map only under a lookup miss of that map that is re-evaluated before every such store (no path from one insertion to the next avoids the lookup)", 2)
+	for _, tbl := range []string{"conns", "idleConns"} {
+		for _, op := range p.mapOps("Transport", tbl) {
+			if op.Kind != "update" {
+				continue
+			}
+			fresh := false
+			for _, o := range p.origins(op.Val) {
+				o = p.canon(o)
+				if _, isAlloc := o.(*ssa.Alloc); isAlloc {
+					fresh = true
+				}
+				if cc, isC := o.(*ssa.Call); isC && calleeName(cc) == "newConnQueue" {
+					fresh = true
+				}
+			}
+			if !fresh {
+				continue
+			}
+			fn := op.Fn
+			var lk ssa.Instruction
+			eachInstr(fn, func(in ssa.Instruction) {
+				l, ok := in.(*ssa.Lookup)
+				if !ok || !l.CommaOk || !isLoadOf(p.canon(l.X), "Transport", tbl) {
+					return
+				}
+				g, _ := p.guardedBy(op.Instr, func(cond ssa.Value) (bool, bool) {
+					e, ok := p.canon(cond).(*ssa.Extract)
+					if !ok || e.Index != 1 || e.Tuple != ssa.Value(l) {
+						return false, false
+					}
+					return true, false
+				})
+				if g {
+					lk = in
+				}
+			})
+			ok := lk != nil
+			det := ""
+			if lk == nil {
+				det = "a fresh container is stored into Transport." + tbl + " without a lookup miss guarding it: an existing container (and its connections) is overwritten and leaked"
+			} else if _, tr, again := p.reachFrom(fn, op.Instr, func(x ssa.Instruction) bool { return x == op.Instr }, func(x ssa.Instruction) bool { return x == lk }); again {
+				ok = false
+				det = "the lookup that justifies this insertion is not re-evaluated between two insertions (path " + p.lineTrail(tr) + "): the second one overwrites the container just stored and its connections are leaked open"
+			}
+			c.Ob(rule, sc.key(fn, "Transport."+tbl+"[addr]=fresh container"), p.InstrPos(op.Instr), ok, det)
+		}
+	}
+
+}
+
+// ruleMovePair is shared by C13, C15 and C20.
+func ruleMovePair(c *Check, a *Analysis, rule string) {
+	p := c.P
+	sc := siteCounter{}
+	// ---- R-MOVE-PAIR
+	c.Rule(rule, "every removal from an active list (conns.Delete) is followed on all paths by Enqueue or Close of the removed connection", 2)
+	for _, fn := range p.Fns {
+		for _, del := range callsIn(fn, "(*conns).Delete") {
+			in := del.(ssa.Instruction)
+			_, tr, miss := p.reachFrom(fn, in, func(x ssa.Instruction) bool { return isReturnLike(x) || x == in }, func(x ssa.Instruction) bool {
+				cc, ok := x.(*ssa.Call)
+				if !ok {
+					return false
+				}
+				n := calleeName(cc)
+				return n == "(*Conn).Close" || n == "(*connQueue).Enqueue"
+			})
+			c.Ob(rule, sc.key(fn, "Delete then Enqueue|Close"), p.InstrPos(in), !miss, ifs(miss, "a connection removed from the active list is neither parked nor closed on path "+p.lineTrail(tr)))
+		}
+	}
+
+}
+
+// ruleEnqueueOrClose is shared by C13, C15 and C20: a connection rejected by
+// the idle queue is closed.
+func ruleEnqueueOrClose(c *Check, a *Analysis, rule string) {
+	p := c.P
+	sc := siteCounter{}
+	if _, ok := c.rules[rule]; !ok {
+		c.Rule(rule, "a connection that the idle queue rejects (Enqueue returns false) is closed on every path; an Enqueue on a queue created in the same function cannot be rejected", 2)
+	}
+	for _, fn := range p.Fns {
+		for _, eq := range callsIn(fn, "(*connQueue).Enqueue") {
+			in := eq.(ssa.Instruction)
+			recvFresh := false
+			for _, o := range p.origins(eq.Common().Args[0]) {
+				if cc, ok := p.canon(o).(*ssa.Call); ok && calleeName(cc) == "newConnQueue" && cc.Parent() == fn {
+					recvFresh = true
+				} else {
+					recvFresh = false
+					break
+				}
+			}
+			if recvFresh {
+				c.Ob(rule, sc.key(fn, "Enqueue on fresh queue"), p.InstrPos(in), true, "")
+				continue
+			}
+			// rejected connection is closed: on the edge where the result is false a Close of the argument follows
+			res := eq.Value()
+			okClose := false
+			edges, n := p.guardEdges(fn, func(cond ssa.Value) (bool, bool) {
+				if p.canon(cond) == ssa.Value(res) {
+					return true, false // rejected on the false edge
+				}
+				return false, false
+			})
+			if n > 0 {
+				okClose = true
+				for e := range edges {
+					_, _, miss := p.reachFromBlock(fn, e.to, func(x ssa.Instruction) bool { return isReturnLike(x) || x == in }, func(x ssa.Instruction) bool {
+						cc, ok := x.(*ssa.Call)
+						return ok && calleeName(cc) == "(*Conn).Close"
+					}, nil)
+					if miss {
+						okClose = false
+					}
+				}
+			}
+			c.Ob(rule, sc.key(fn, "rejected by Enqueue ⇒ Close"), p.InstrPos(in), okClose, ifs(!okClose, "a connection that does not fit into the idle queue is neither queued nor closed (leaked, uncounted)"))
 		}
 	}
 }
